@@ -1,2 +1,2 @@
 import LdkModel.Driver.C02
-def main (args : List String) : IO UInt32 := Ldk.Driver.runMain [("c02admit", Ldk.Driver.c02admit), ("c02hop", Ldk.Driver.c02hop), ("c02fwd", Ldk.Driver.c02fwd), ("c02close", Ldk.Driver.c02close)] args
+def main (args : List String) : IO UInt32 := Ldk.Driver.runMain [("c02admit", Ldk.Driver.c02admit), ("c02hop", Ldk.Driver.c02hop), ("c02fwd", Ldk.Driver.c02fwd), ("c02close", Ldk.Driver.c02close), ("c02multi", Ldk.Driver.c02multi)] args
